@@ -340,7 +340,9 @@ theorem pivotStep_spec (n i : Nat) (eps : K) (s : LUState K) (m : Mat K) (hi : i
     (pivotStep n i eps s m).m = m ∧ PermOK n (pivotStep n i eps s m).p ∧
     Rearr n i s.p (pivotStep n i eps s m).p ∧
     ((pivotStep n i eps s m).isId = true → ∀ a, (pivotStep n i eps s m).p.get a = a) ∧
-    ((pivotStep n i eps s m).d = s.d ∨ (pivotStep n i eps s m).d = -s.d) := by
+    (((pivotStep n i eps s m).p = s.p ∧ (pivotStep n i eps s m).d = s.d) ∨
+      ∃ piv, piv ≠ i ∧ piv < n ∧ (pivotStep n i eps s m).p = s.p.swap piv i ∧
+        (pivotStep n i eps s m).d = s.d * (-1)) := by
   unfold pivotStep
   simp only
   generalize hcol : (if s.isId = true then fun j => m.get j i else fun j => m.get (s.p.get j) i) = col
@@ -348,17 +350,46 @@ theorem pivotStep_spec (n i : Nat) (eps : K) (s : LUState K) (m : Mat K) (hi : i
   split_ifs with h1 h2
   · refine ⟨rfl, hp.swap b2 hi, Rearr.swap n i s.p b1 b2, ?_, ?_⟩
     · intro h; simp at h
-    · right; simp
-  · exact ⟨rfl, hp, Rearr.refl n i s.p, hid, Or.inl rfl⟩
-  · exact ⟨rfl, hp, Rearr.refl n i s.p, hid, Or.inl rfl⟩
+    · exact Or.inr ⟨_, h1, b2, rfl, rfl⟩
+  · exact ⟨rfl, hp, Rearr.refl n i s.p, hid, Or.inl ⟨rfl, rfl⟩⟩
+  · exact ⟨rfl, hp, Rearr.refl n i s.p, hid, Or.inl ⟨rfl, rfl⟩⟩
 
 /-! ### the main loop -/
+
+/-- `d` is the parity of a decomposition of `p` into transpositions of `[0,n)` (i.e. its
+signature) : `p` is obtained from the identity by `l.length` exchanges of two distinct positions
+and `d = (-1)^l.length` -/
+def SignOK (n : Nat) (p : Perm) (d : Int) : Prop :=
+  ∃ l : List (Nat × Nat), (∀ t ∈ l, t.1 ≠ t.2 ∧ t.1 < n ∧ t.2 < n) ∧
+    p = l.foldl (fun q t => q.swap t.1 t.2) Perm.id ∧ d = (-1) ^ l.length
+
+theorem SignOK.id (n : Nat) : SignOK n Perm.id 1 := ⟨[], by simp, rfl, rfl⟩
+
+theorem SignOK.swap {n : Nat} {p : Perm} {d : Int} (h : SignOK n p d) {i j : Nat} (hij : i ≠ j)
+    (hi : i < n) (hj : j < n) : SignOK n (p.swap i j) (d * (-1)) := by
+  obtain ⟨l, h1, h2, h3⟩ := h
+  refine ⟨l ++ [(i, j)], ?_, ?_, ?_⟩
+  · intro t ht
+    rw [List.mem_append, List.mem_singleton] at ht
+    rcases ht with ht | rfl
+    · exact h1 t ht
+    · exact ⟨hij, hi, hj⟩
+  · rw [List.foldl_append, ← h2]
+    rfl
+  · rw [List.length_append, List.length_singleton, pow_succ, h3]
+
+theorem SignOK.unit {n : Nat} {p : Perm} {d : Int} (h : SignOK n p d) : d = 1 ∨ d = -1 := by
+  obtain ⟨l, _, _, h3⟩ := h
+  rw [h3]
+  rcases Nat.even_or_odd l.length with he | ho
+  · left; exact Even.neg_one_pow he
+  · right; exact Odd.neg_one_pow ho
 
 /-- invariant of `LUDecomp::exe` after `i` iterations -/
 structure LUInv (n : Nat) (A : Mat K) (i : Nat) (s : LUState K) : Prop where
   minv : MInv n A i i s.m s.p
   idok : s.isId = true → ∀ a, s.p.get a = a
-  sign : s.d = 1 ∨ s.d = -1
+  sign : SignOK n s.p s.d
 
 theorem luStep_inv {n : Nat} {A : Mat K} {eps : K} (he : 0 < eps) {i : Nat} (hi : i < n)
     {s s' : LUState K} (h : LUInv n A i s) (hs : luStep n eps i s = some s') :
@@ -379,8 +410,10 @@ theorem luStep_inv {n : Nat} {A : Mat K} {eps : K} (he : 0 < eps) {i : Nat} (hi 
   · show MInv n A (i + 1) (i + 1) (uUpdate n i s2) s2.p
     rw [uUpdate_eq n i s2 q4]
     exact hm1.uUpd hi hpiv
-  · show s2.d = 1 ∨ s2.d = -1
-    rcases h.sign with e | e <;> rcases q5 with e' | e' <;> rw [e', e] <;> simp
+  · show SignOK n s2.p s2.d
+    rcases q5 with ⟨e1, e2⟩ | ⟨piv, e0, e1, e2, e3⟩
+    · rw [e1, e2]; exact h.sign
+    · rw [e2, e3]; exact h.sign.swap e0 e1 hi
 
 theorem luLoop_inv {n : Nat} {A : Mat K} {eps : K} (he : 0 < eps) {s0 : LUState K}
     (h0 : LUInv n A 0 s0) : ∀ k, k ≤ n → ∀ s, luLoop n eps k s0 = some s → LUInv n A k s := by
@@ -403,7 +436,7 @@ theorem luLoop_inv {n : Nat} {A : Mat K} {eps : K} (he : 0 < eps) {s0 : LUState 
 theorem luDecomp_inv {n : Nat} {A : Mat K} {eps : K} (he : 0 < eps) {s : LUState K}
     (hs : luDecomp n eps A = some s) : LUInv n A n s := by
   unfold luDecomp at hs
-  exact luLoop_inv he ⟨MInv.init n A, fun _ _ => rfl, Or.inl rfl⟩ n (le_refl _) s hs
+  exact luLoop_inv he ⟨MInv.init n A, fun _ _ => rfl, SignOK.id n⟩ n (le_refl _) s hs
 
 /-! ### triangular sums -/
 
